@@ -257,4 +257,6 @@ def run(chk, tier):
         chk.expect(not slets and any(body.replace("Deref(", "(").endswith(w) or w in body for w in want), "lookup-order", hl["path"].split(" as ")[0].split("::")[-1] + "::" + nm, "key-is-the-argument",
                    f"{nm}: index consulted with the parameter itself", body[:160], loc=C.fn_loc(hl))
     chk.floor("lookup-order", "SOP class look-up functions", n_lk, 4)
+    from . import shared
+    shared.tag_range_inner(chk, fx, "tag-range-inner")
     chk.undecided.append("agreement of the generated table with the published PS3.6 (the generator's input is trusted); the 2^32 lookups themselves")
